@@ -1,5 +1,10 @@
 # property id -> claim text (filled as checks are admitted; everything else is listed under NA with the reason)
 CLAIMS = {
+ 'C03': {'technique': 'static analysis: data-dependence of cursor/budget updates on the returned transfer count (per call site, dominance-scoped), guard dominance for delivery, frame-offset table agreement',
+         'text': 'Decides the short-transfer discipline that every segmentation relies on: at each of the transfer sites whose buffer argument is base+cursor (C++ stream gateways and both C gateways) the result is '
+                 'kept and every dominated update of the cursor / caller budget is computed from the returned count, never from the requested size; the stream branch hands a Message up only when the cursor reached '
+                 'the end of its buffer; writer and reader of the 8-byte frame agree on offsets. Delivery for concrete segmentations, zlib/template-cache state and text/SLIP/WebSocket framing are not decided.',
+         'note': 'Narrow. IORESULT was made exact on all 12 cursor-style sites of the current tree, so C03 is claimed rather than declared not applicable (see DESIGN section 4, C03).'},
  'C14': {'technique': 'static analysis: extraction and comparison of archive operations (field name, kind, default, base chaining) per class, member read/write coverage, factory/TypeCode table agreement, path-based null-test rule',
          'text': 'Decides the archiving clause structurally for every filter tree at once: each class saves and restores the same (name, kind) fields with the same defaults and the same base chaining; every member '
                  'read under Matches is saved and restored somewhere in the class chain; every filter type code has a factory case creating the class that reports it; no Matches removes const; factory results '
@@ -89,6 +94,6 @@ CLAIMS = {
          'note': 'Assumes const methods with by-value/const-ref parameters do not change what loop tests read; logging and destructor hubs are cut from the recursion graph.'},
 }
 _PENDING = 'check under construction in this session (see DESIGN.md section 4); not claimed until its rule is admitted'
-NA = {pid: _PENDING for pid in ['C03','C08']}
+NA = {pid: _PENDING for pid in ['C08']}
 NA['C09'] = ('refinement of an ideal ordered map over operation histories with live iterators: its mechanisms are co-located with the mutations they protect inside single template functions; '
              'no sound structural necessary condition was found that is not either compiler-enforced or a frozen-fragment match (DESIGN.md section 4, C09)')
